@@ -71,14 +71,17 @@ Ib2Dom ==
             \cup {In(l, n, v) : l \in {x \in L : OwnerPresent(x, topo)}, n \in {"a", "b"}, v \in V}
 
 PathA == <<"path", "t1", "a", "">>
+XUpper == <<"xupper", "", "", "">>   \* upper-case scheme spelling: not an explicit address for the code, dangles
 Targets == {PathA, <<"path", "t1", "b", "">>, <<"path", "t2", "a", "">>, <<"path", "t2", "b", "">>, <<"alias", "", "", "g">>,
-            <<"alias", "", "", "h">>, <<"xtcp", "", "", "">>, <<"xipc", "", "", "">>, <<"path", "t1", "zz", "">>, <<"path", "nosuch", "a", "">>}
-BadTargets == {<<"alias", "", "", "h">>, <<"path", "t1", "zz", "">>, <<"path", "nosuch", "a", "">>}
+            <<"alias", "", "", "h">>, <<"xtcp", "", "", "">>, <<"xipc", "", "", "">>, <<"path", "t1", "zz", "">>, <<"path", "nosuch", "a", "">>,
+            XUpper}
+BadTargets == {<<"alias", "", "", "h">>, <<"path", "t1", "zz", "">>, <<"path", "nosuch", "a", "">>, XUpper}
 OutLevels == {l \in {"role:t2", "grp", "root", "role:t1", "role:t3", "tmpl:t2"} : OwnerPresent(l, topo)}
 Ob1Dom ==
   CASE Size = "core" ->
          {Out("role:t2", "x", t, "default") : t \in {PathA, <<"alias", "", "", "g">>, <<"path", "t1", "zz", "">>, <<"path", "nosuch", "a", "">>}}
          \cup {Out("role:t2", "x", <<"xtcp", "", "", "">>, "zeromq"), Out("root", "x", PathA, "default")}
+         \cup (IF ib2 = NoIn THEN {Out("role:t2", "x", XUpper, "zeromq")} ELSE {})
     [] Size = "mid" -> {Out(l, "x", t, "default") : l \in {"role:t2", "root", "tmpl:t2"},
                                                     t \in Targets \ {<<"path", "t2", "b", "">>, <<"xipc", "", "", "">>}}
     [] Size = "large" -> {Out(l, "x", t, "default") : l \in OutLevels \ {"role:t3", "role:t1"}, t \in Targets}
@@ -135,7 +138,7 @@ InvExpectedIsFunction == Done => ExpectedIsFunction(Case)
 InvRejectedIffBad == Done => RejectedIffBad(Case)
 InvModelViolExplained == Done => ModelViolExplained(Case)
 
-Vocab == [xin_tcp |-> XAddr("tcp"), xin_ipc |-> XAddr("ipc"), xout_tcp |-> OutXAddr("xtcp"), xout_ipc |-> OutXAddr("xipc"),
+Vocab == [xin_tcp |-> XAddr("tcp"), xin_ipc |-> XAddr("ipc"), xout_tcp |-> OutXAddr("xtcp"), xout_ipc |-> OutXAddr("xipc"), xout_upper |-> OutXUpper,
           stale_address |-> StaleAddr, stale_method |-> StaleMethod, stale_transport |-> StaleTransport]
 PrintCase == Done => PrintT(<<"CASE", Case, Outcome(Case), ModelViol(Case), Vocab>>)
 =============================================================================
